@@ -402,24 +402,8 @@ def _scale(case):
     return 2 if (case['rep'] == 'none' and case['method'] == 'bounds') else 1
 
 
-def _diffs_in_float():
-    """does val2idx form the coordinate differences in float (fixes/C16-val2idx-diff-in-float.patch)?"""
-    try:
-        sts, _ = _val2idx_statements()
-        return sts is not None and "dval = np.diff(dimvals.astype('d')) / 2" in sts and "ddimevals = np.diff(np.asarray(dimevals, dtype='d'))" in sts
-    except Exception:   # noqa
-        return False
-
-
-def _wraps(case):
-    """unsigned coordinate, descending, direction decided from the coordinate itself: np.diff wraps around (known finding
-    C16-unsigned-descending); such cases are judged by the Python oracle only until the source forms the differences in float"""
-    return (not case.get('fl') and str(case.get('dtype', '')).startswith('u') and case['rep'] == 'none'
-            and len(case['cs']) > 1 and case['cs'][0] > case['cs'][-1] and not _diffs_in_float())
-
-
 def coq_term(case, obs):
-    if case.get('fl') or _wraps(case):
+    if case.get('fl'):
         return None
     if case['rep'] == 'none':
         bv = 'NoBounds'
@@ -538,12 +522,6 @@ def py_check(case, obs):
         if exp != got:
             res['f_ok'] = False
             why.append('date2num differs from the exact offset')
-    if _wraps(case):
-        res['region'] = 2
-        if 'raises' in obs and not (case['bounds'] == 'error' and obs.get('raises') == 'ValueError' and 'out of bounds' in obs.get('msg', '')):
-            res['s_ok'] = False
-            res['why'] = 'in-domain lookup raised %s: %s' % (obs.get('raises'), obs.get('msg'))
-            return res
     if 'raises' in obs:
         res['why'] = '; '.join(why)
         return res          # judged by the Coq side (spec_outcome)
@@ -674,10 +652,10 @@ def translate():
                 ("return outidx", 'result')]
             for st, what in need:
                 ob('val2idx: `%s` (%s)' % (st, what), st in sts)
-            ob('val2idx: dval = half the coordinate differences (derive_edges), formed in the coordinate dtype or in float',
-               "dval = np.diff(dimvals) / 2" in sts or "dval = np.diff(dimvals.astype('d')) / 2" in sts)
-            ob('val2idx: ddimevals = differences of the edges (direction test), formed in their dtype or in float',
-               "ddimevals = np.diff(dimevals)" in sts or "ddimevals = np.diff(np.asarray(dimevals, dtype='d'))" in sts)
+            ob("val2idx: `dval = np.diff(dimvals.astype('d')) / 2` (derive_edges: differences formed in float, fix 3b237b6)",
+               "dval = np.diff(dimvals.astype('d')) / 2" in sts, 'differences formed in the coordinate dtype again (narrow / unsigned types wrap)')
+            ob("val2idx: `ddimevals = np.diff(np.asarray(dimevals, dtype='d'))` (direction test: differences formed in float, fix 3b237b6)",
+               "ddimevals = np.diff(np.asarray(dimevals, dtype='d'))" in sts, 'differences formed in the edge dtype again (narrow / unsigned types wrap)')
             for t, what in [("method not in ('exact', 'nearest', 'bounds')", 'bad_opts'), ("bounds not in ('ignore', 'warn', 'error')", 'bad_opts'),
                             ("clean not in ('none', 'mask')", 'bad_opts'), ("(dval == dval[0]).all()", 'uniform'),
                             ("(ddimevals < 0).all()", 'all_neg first'), ("(ddimevals > 0).all()", 'all_pos'),
